@@ -1,0 +1,50 @@
+//go:build verif
+
+package storagesc
+
+import (
+	cstate "0chain.net/chaincore/chain/state"
+	"0chain.net/core/common"
+	"0chain.net/smartcontract/provider"
+	"0chain.net/smartcontract/stakepool"
+	"0chain.net/smartcontract/stakepool/spenum"
+	"github.com/0chain/common/core/currency"
+)
+
+// Thin exported wrappers for the /verif engines (constructors for unexported types, no logic).
+
+// VerifNewBlobberNode builds a blobber record the way benchmark_setup.go does.
+func VerifNewBlobberNode(id string, savedData int64, sps stakepool.Settings, lastHC common.Timestamp) *StorageNode {
+	sn := &StorageNode{}
+	sn.SetEntity(&storageNodeV3{
+		Provider:          provider.Provider{ID: id, ProviderType: spenum.Blobber, LastHealthCheck: lastHC},
+		BaseURL:           "http://" + id + ".verif",
+		SavedData:         savedData,
+		StakePoolSettings: sps,
+	})
+	return sn
+}
+
+// VerifBlobberFlags reads the killed / shut-down flags of a stored blobber.
+func VerifBlobberFlags(id string, balances cstate.CommonStateContextI) (killed, shutDown bool, err error) {
+	b, err := getBlobber(id, balances)
+	if err != nil {
+		return false, false, err
+	}
+	return b.IsKilled(), b.IsShutDown(), nil
+}
+
+// VerifPutStakePool stores a storagesc stake pool (StakePool + TotalOffers) under its key.
+func VerifPutStakePool(p spenum.Provider, id string, sp *stakepool.StakePool, totalOffers currency.Coin, balances cstate.StateContextI) error {
+	s := &stakePool{StakePool: sp, TotalOffers: totalOffers}
+	return s.Save(p, id, balances)
+}
+
+// VerifGetStakePool loads a storagesc stake pool.
+func VerifGetStakePool(p spenum.Provider, id string, balances cstate.CommonStateContextI) (*stakepool.StakePool, currency.Coin, error) {
+	s, err := getStakePool(p, id, balances)
+	if err != nil {
+		return nil, 0, err
+	}
+	return s.StakePool, s.TotalOffers, nil
+}
